@@ -273,9 +273,41 @@ func history[U Uint](req *Req) (res Res) {
 	return
 }
 
+// pair: two instances initialised from the SAME option values; a parses req.In, then b parses req.Hist[0], and only
+// then a's results are collected (tokens, tree, printed tree), then b's. Hist[0]/Hist[1] of the result = a / b.
+func pair[U Uint](req *Req) (res Res) {
+	res.Seq = req.Seq
+	defer func() {
+		if x := recover(); x != nil {
+			res.Panic = fmt.Sprint(x)
+		}
+	}()
+	opts := options[U](req)
+	a := &{{.Type}}[U]{Buffer: string(req.In)}
+	b := &{{.Type}}[U]{Buffer: string(req.Hist[0])}
+	if err := a.Init(opts...); err != nil {
+		res.Panic = "Init error: " + err.Error()
+		return
+	}
+	if err := b.Init(opts...); err != nil {
+		res.Panic = "Init error: " + err.Error()
+		return
+	}
+	errA := parse(a, req.Entry)
+	errB := parse(b, req.Entry)
+	var ra, rb Res
+	collect(a, errA, req, &ra)
+	collect(b, errB, req, &rb)
+	res.Hist = []Res{ra, rb}
+	return
+}
+
 func dispatch[U Uint](req *Req) Res {
 	if req.Mode == "history" {
 		return history[U](req)
+	}
+	if req.Mode == "pair" {
+		return pair[U](req)
 	}
 	return one[U](req)
 }
